@@ -104,14 +104,15 @@ func (g *gen) enumerate() []Case {
 			}
 		}
 		// every call, alone and under an operator
+		ap := func(x string) Expr { return p(g.argPath(x)) }
 		calls := []Expr{
 			call("len", p("xs")), call("len", p("ss")), call("len", p("s")), call("len", p("m")), call("len", p("e")),
 			call("upper", p("s")), call("lower", p("h")), call("trim", p("s")), call("int", p("num")), call("int", p("a")),
-			call("string", p("a")), call("string", p("f")), call("string", p("s")), call("upper", ls("abc", "d")), call("upper", ls("abc", "s")),
+			call("string", p("a")), call("string", ap("f")), call("string", p("s")), call("upper", ls("abc", "d")), call("upper", ls("abc", "s")),
 			call("title", p("m.inner.s")), call("greet", p("s")), call("greet", ls("x1", "d")), call("ctxup", p("h")),
 			call("add", p("a"), p("b")), call("add", p("a"), li("1")), call("sum", p("a"), li("1"), p("b")),
-			call("isBig", p("a")), call("isBig", p("b")), call("isBig", p("z")), call("neg", p("t")), call("neg", p("u")),
-			call("half", p("f")), call("scale", p("f"), lf("2.0")), call("pick", p("t"), p("s"), ls("no", "d")),
+			call("isBig", p("a")), call("isBig", p("b")), call("isBig", p("z")), call("neg", ap("t")), call("neg", p("u")),
+			call("half", ap("f")), call("scale", ap("f"), lf("2.0")), call("pick", ap("t"), p("s"), ls("no", "d")),
 		}
 		for _, c := range calls {
 			addE(env, c)
@@ -159,16 +160,19 @@ func (g *gen) enumerate() []Case {
 			{K: "path", V: "a"}, {K: "path", V: "f"}, {K: "path", V: "s"}, {K: "path", V: "t"}, {K: "path", V: "big"}},
 	}
 	srcs["int64"] = srcs["int"]
+	for _, l := range srcs {
+		for i := range l {
+			if l[i].K == "path" {
+				l[i].V = g.argPath(l[i].V)
+			}
+		}
+	}
 	if !g.open[fQVar] {
 		srcs["string"] = append(srcs["string"], Arg{K: "str", V: "a", Q: "d"}, Arg{K: "str", V: "s", Q: "s"})
 		srcs["any"] = append(srcs["any"], Arg{K: "str", V: "h", Q: "d"})
+		srcs["string"] = append(srcs["string"], Arg{K: "str", V: " x ", Q: "d"}, Arg{K: "str", V: "trail ", Q: "s"}, Arg{K: "str", V: "'q'", Q: "d"}, Arg{K: "str", V: `"q"`, Q: "s"})
 	} else {
 		g.excluded(fQVar)
-	}
-	if !g.open[fQTrim] {
-		srcs["string"] = append(srcs["string"], Arg{K: "str", V: " x ", Q: "d"}, Arg{K: "str", V: "trail ", Q: "s"})
-	} else {
-		g.excluded(fQTrim)
 	}
 	names := append([]string{}, fnNames...)
 	sort.Strings(names)
